@@ -328,6 +328,31 @@ fn format_expression_internal(
                 format_expression_internal(ctx, expression, context, shape)
                     .update_leading_trivia(FormatTriviaType::Append(leading_comments))
                     .update_trailing_trivia(FormatTriviaType::Append(trailing_comments))
+            } else if contained
+                .tokens()
+                .0
+                .trailing_trivia()
+                .any(trivia_util::trivia_is_singleline_comment)
+            {
+                // A line comment directly after `(` would swallow the expression and the `)`:
+                // the expression goes onto its own line
+                let expression_shape = shape.reset().increment_additional_indent();
+                let contained = format_contained_span(ctx, contained, shape);
+                let (start_token, end_token) = contained.tokens();
+
+                Expression::Parentheses {
+                    contained: ContainedSpan::new(
+                        start_token.update_trailing_trivia(FormatTriviaType::Append(vec![
+                            create_newline_trivia(ctx),
+                            create_indent_trivia(ctx, expression_shape),
+                        ])),
+                        end_token.update_leading_trivia(FormatTriviaType::Append(vec![
+                            create_newline_trivia(ctx),
+                            create_indent_trivia(ctx, shape),
+                        ])),
+                    ),
+                    expression: Box::new(format_expression(ctx, expression, expression_shape)),
+                }
             } else {
                 Expression::Parentheses {
                     contained: format_contained_span(ctx, contained, shape),
@@ -1413,6 +1438,12 @@ fn format_hanging_expression_(
                 let expression_str = formatted_expression.to_string();
                 if !contains_comments(expression)
                     && !lhs_shape.add_width(2 + expression_str.len()).over_budget()
+                    // A line comment directly after `(` would swallow the expression and the `)`
+                    && !contained
+                        .tokens()
+                        .0
+                        .trailing_trivia()
+                        .any(trivia_util::trivia_is_singleline_comment)
                 {
                     // The expression inside the parentheses is small, we do not need to break it down further
                     return Expression::Parentheses {
